@@ -12,6 +12,7 @@ CT_FUNCS = [('secp256k1_scalar_is_zero', []), ('secp256k1_scalar_cmov', []), ('s
             ('secp256k1_fe_impl_negate_unchecked', []), ('secp256k1_fe_impl_add', []), ('secp256k1_fe_impl_half', []), ('secp256k1_fe_impl_is_odd', []),
             ('secp256k1_scalar_add', ['secp256k1_scalar_check_overflow'], ['secp256k1_scalar_reduce'], 'bind'), ('secp256k1_scalar_half', [], [], 'bind'), ('secp256k1_scalar_eq', []),
             ('secp256k1_fe_impl_mul_int_unchecked', []), ('secp256k1_fe_impl_to_storage', []), ('secp256k1_fe_impl_from_storage', []), ('secp256k1_fe_impl_get_b32', []),
+            ('secp256k1_fe_impl_set_b32_limit', [], ['secp256k1_fe_impl_set_b32_mod']),
             ('secp256k1_scalar_mul_512', []), ('secp256k1_scalar_sqr_512', []),
             ('secp256k1_scalar_reduce_512', ['secp256k1_scalar_check_overflow'], ['secp256k1_scalar_reduce'], 'bind')]
 # the 32-bit-limb scalar code (compiled only with USE_FORCE_WIDEMUL_INT64 / on 32-bit targets), translated in bind style
@@ -49,7 +50,8 @@ K64_PROOFS = [('scalar_mul_512b', 'Kernel/ScalarMul4x64.vo', 'scalar_mul_512b_wp
 PROOFS = {'secp256k1_fe_mul_inner': ('Kernel/Field5x52.vo', 'fe_mul_inner_correct'),
           'secp256k1_fe_sqr_inner': ('Kernel/Field5x52Sqr.vo', 'fe_sqr_inner_correct')}
 # proofs over the regenerated branch-free primitives: (function, .vo, theorem)
-CT_PROOFS = [('secp256k1_fe_impl_mul_int_unchecked', 'Kernel/MorePrims.vo', 'fe_mul_int_correct'), ('secp256k1_fe_impl_to_storage', 'Kernel/MorePrims.vo', 'fe_to_storage_correct'),
+CT_PROOFS = [('secp256k1_fe_impl_set_b32_limit', 'Kernel/FieldSetB32.vo', 'fe_set_b32_limit_correct'),
+             ('secp256k1_fe_impl_mul_int_unchecked', 'Kernel/MorePrims.vo', 'fe_mul_int_correct'), ('secp256k1_fe_impl_to_storage', 'Kernel/MorePrims.vo', 'fe_to_storage_correct'),
              ('secp256k1_fe_impl_from_storage', 'Kernel/MorePrims.vo', 'fe_from_storage_correct'), ('secp256k1_scalar_cond_negate', 'Kernel/MorePrims.vo', 'scalar_cond_negate_correct'),
              ('secp256k1_fe_impl_normalize_weak', 'Kernel/FieldNormalize2.vo', 'fe_normalize_weak_correct'), ('secp256k1_fe_impl_normalizes_to_zero', 'Kernel/FieldNormalize2.vo', 'fe_normalizes_to_zero_correct'),
              ('secp256k1_scalar_add', 'Kernel/ScalarAdd.vo', 'scalar_add_correct'), ('secp256k1_scalar_half', 'Kernel/ScalarAdd.vo', 'scalar_half_correct'),
@@ -112,7 +114,7 @@ def limb_cases(rng, n, nin):
 RAW_SHAPES = {   # input shapes of the raw ops: S scalar limbs (4 x u64), F field limbs (5), T storage limbs (4), I flag, M magnitude, P non-negative int
  'scalar_is_zero': 'S', 'scalar_cmov': 'SSI', 'fe_impl_cmov': 'FFI', 'fe_storage_cmov': 'TTI', 'int_cmov': 'PPI', 'scalar_check_overflow': 'S',
  'scalar_is_high': 'S', 'scalar_cond_negate': 'sI', 'scalar_negate': 's', 'fe_impl_normalize': 'F', 'fe_impl_normalize_weak': 'F',
- 'fe_impl_normalizes_to_zero': 'F', 'fe_impl_negate_unchecked': 'fM', 'fe_impl_add': 'ff', 'fe_impl_half': 'f', 'fe_impl_is_odd': '1', 'scalar_mul_512': 'SS', 'scalar_sqr_512': 'S', 'scalar_reduce_512': 'SS', 'scalar_add': 'ss', 'scalar_half': 's', 'scalar_mul_512b': 'SS', 'scalar_sqr_512b': 'S', 'scalar_mul': 'SS', 'scalar_sqr': 'S'}
+ 'fe_impl_normalizes_to_zero': 'F', 'fe_impl_negate_unchecked': 'fM', 'fe_impl_add': 'ff', 'fe_impl_half': 'f', 'fe_impl_is_odd': '1', 'scalar_mul_512': 'SS', 'scalar_sqr_512': 'S', 'scalar_reduce_512': 'SS', 'fe_impl_set_b32_limit': 'B', 'scalar_add': 'ss', 'scalar_half': 's', 'scalar_mul_512b': 'SS', 'scalar_sqr_512b': 'S', 'scalar_mul': 'SS', 'scalar_sqr': 'S'}
 N_LIMBS = [0xBFD25E8CD0364141, 0xBAAEDCE6AF48A03B, 0xFFFFFFFFFFFFFFFE, 0xFFFFFFFFFFFFFFFF]
 def raw_inputs(rng, shape):
     v = []
@@ -130,6 +132,10 @@ def raw_inputs(rng, shape):
             v += [rng.choice([0, 1, (1 << 52) - 1, (1 << 52), (1 << 57) - 1, 0xFFFFEFFFFFC2F, 0xFFFFEFFFFFC2E, rng.bits(52), rng.bits(57)]) for _ in range(4)] + [rng.choice([0, (1 << 48) - 1, 1 << 48, (1 << 53) - 1, rng.bits(48), rng.bits(53)])]
         elif ch == 'f':      # magnitude <= 8
             v += [rng.choice([0, 1, (1 << 52) - 1, (1 << 55) - 1, rng.bits(52), rng.bits(55)]) for _ in range(4)] + [rng.choice([0, (1 << 48) - 1, (1 << 51) - 1, rng.bits(48), rng.bits(51)])]
+        elif ch == 'B':      # 32 bytes: big-endian strings around the field prime and with saturated limb patterns
+            P_ = (1 << 256) - (1 << 32) - 977
+            x = rng.choice([P_, P_ - 1, P_ + 1, P_ - rng.bits(32), (1 << 256) - 1, (1 << 256) - (1 << 104) + rng.bits(52), (1 << 256) - 1 - (rng.bits(52) << 52), rng.bits(256), 0, 1, P_ - (1 << 52), ((1 << 256) - 1) ^ (rng.bits(52) << (52 * rng.below(5)))]) % (1 << 256)
+            v += list(x.to_bytes(32, 'big'))
         elif ch == '1': v.append(rng.bits(52))
         elif ch == 'I': v.append(rng.below(2))
         elif ch == 'M': v.append(8)
@@ -160,6 +166,19 @@ def search_failing_input(chk, thm):
                                    'impl': 'differs from the reference (schoolbook product / long division by n)', 'model': thm + ' does not check over the regenerated code', 'witness': line})
             return line
     return None
+
+def single_obligation(chk, fn):
+    """one regenerated function and its kernel theorem as obligations of another property's check (e.g. C03: the range test of
+    field-element parsing)"""
+    item = [it for it in CT_FUNCS if _item(it)['fn'] == fn][0]
+    res = regenerate([item])
+    ok, msg = res[fn]
+    chk.obligation('translate %s from the working tree' % fn, ok, msg)
+    for f, vo, thm in CT_PROOFS:
+        if f != fn or not ok: continue
+        rc, log = vlib.coq_make([vo], timeout=int(os.environ.get('VERIF_KERNEL_TIMEOUT', '480')))
+        gv = os.path.join(vlib.COQ, 'Gen', fn.replace('secp256k1_', '') + '.v'); vop = os.path.join(vlib.COQ, vo)
+        chk.obligation('kernel theorem %s over regenerated %s' % (thm, fn), os.path.exists(vop) and os.path.getmtime(vop) >= os.path.getmtime(gv), log[-3000:])
 
 def ct_obligations(chk, validate=True):
     """C06/C05: the branch-free primitives are inside the translator's subset (no branch, no loop, no variable
